@@ -47,13 +47,17 @@ TPair ==
        ELSE IF ei > Len(Tr.events)
             THEN /\ PairWith(IdealPrefix(Meas, thr, n), IdealPrefix(Meas, thr, m), IdealOverlap(Meas, thr, n, m))
                  /\ note' = note \cup {"missing-event"} /\ UNCHANGED ei
-            ELSE LET e == Tr.events[ei] IN
-                 /\ PairWith(e.lp, e.rp, e.ot)
+            ELSE LET e == Tr.events[ei]
+                     (* an event that does not fit the pair (other token counts, a prefix longer than the record): *)
+                     (* the logged values cannot be bound to the action; the specification's own step is taken     *)
+                     fits == e.ln = n /\ e.rn = m /\ e.lp \in 1..n /\ e.rp \in 1..m /\ e.ot >= 0 IN
+                 /\ IF fits THEN PairWith(e.lp, e.rp, e.ot)
+                    ELSE PairWith(IdealPrefix(Meas, thr, n), IdealPrefix(Meas, thr, m), IdealOverlap(Meas, thr, n, m))
                  /\ ei' = ei + 1
-                 /\ note' = Add(e.ln = n /\ e.rn = m, "token-counts")
-                            \cup Add(e.lp \in CodePrefix(Meas, thr, n) /\ e.rp \in CodePrefix(Meas, thr, m), "prefix-length")
-                            \cup Add(e.ot \in CodeOverlap(Meas, thr, n, m), "required-overlap")
-                            \cup Add((e.dropped = 1) = SuffixPairDropR(xs, ys, e.lp, e.rp, e.ot), "suffix-decision")
+                 /\ note' = IF ~fits THEN note \cup {"token-counts"}
+                            ELSE Add(e.lp \in CodePrefix(Meas, thr, n) /\ e.rp \in CodePrefix(Meas, thr, m), "prefix-length")
+                                 \cup Add(e.ot \in CodeOverlap(Meas, thr, n, m), "required-overlap")
+                                 \cup Add((e.dropped = 1) = SuffixPairDropR(xs, ys, e.lp, e.rp, e.ot), "suffix-decision")
   /\ UNCHANGED tid
 
 LoggedOut == {<<Tr.rows[k][1], Tr.rows[k][2]>> : k \in DOMAIN Tr.rows}
